@@ -6,7 +6,7 @@ about loops, the items they visit and what is inserted / pushed for an item, not
 from .common import *
 from .feas import (check_feasibility_rule, origins, PathEval, const_operand, absent_inserts, error_propagates, result_kind,
                    canon, whole, is_const, item_calls, enum_tests,
-                   dominates_ok, dominates_sem, must_pass_sem, loop_must2 as loop_must, returned_struct, field_is_none)
+                   dominates_ok, dominates_sem, must_pass_sem, loop_must2 as loop_must, returned_struct, field_is_none, with_renormalised)
 from .C05 import inherited_from
 
 INST = 'v1::Instance'; DV = 'v1::DecisionVariable'; CON = 'v1::Constraint'; RC = 'v1::RemovedConstraint'
@@ -678,6 +678,26 @@ def compress_rules(ctx):
                 ok = same and applied
                 ctx.fn(cb)
         ctx.check(ok and n == 1, R + '/map/entry', 'T-CARRY', b.name, 'SampledValuesEntry is not {value: f(entry.state), ids: entry.ids} of the same entry', b.site())
+        # every input entry yields exactly ONE output entry, namely that pair, and nothing else is ever written into the output:
+        # in every iteration of the loop over self.entries the pair is pushed (once), and the output vector is touched by nothing but
+        # these pushes (no `out[j].ids.extend(..)` merging into an entry produced for another input entry -- seed C06-7)
+        lo_e = loops_over(ctx, b, 'v1::Samples', 'entries')
+        aggl = [st['dst']['l'] for bi, st in find_aggregates(b, SVE) if not st['dst']['p']]
+        pushes = [c for c in b.calls if c.item == 'push' and re.search(r'Vec::<(v1::sampled_values::SampledValuesEntry|T)>::push', c.name) and len(c.args) == 2
+                  and any(l in ctx.S.slice_operand(b, c.args[1]).locals for l in aggl)]
+        one = False; others = []
+        if pushes and lo_e:
+            out = {root_local(b, c.args[0]) for c in pushes}
+            lo = [l for l in lo_e if all(c.bb in l[4] for c in pushes)]
+            one = len(out) == 1 and None not in out and bool(lo) and must_pass_sem(ctx, b, lo[-1][2], {lo[-1][1]}, {c.bb for c in pushes}) and at_most_once(b, pushes, lo[-1][1]) and not restricting(ctx, b, lo[-1])
+            o = next(iter(out))
+            for c in b.calls:
+                if c in pushes or c.item in ('new', 'with_capacity'): continue
+                for a in c.args:
+                    if a['k'] in ('copy', 'move') and '&mut' in b.locals[a['pl']['l']] and root_local(b, a) == o: others.append(c)
+            others += [bi for bi, st in b.stmts() if st['dst']['p'] and st['dst']['l'] == o]
+        ctx.check(one and not others, R + '/map/one-output-per-entry', 'T-LOOPMUST', b.name,
+                  'an input entry does not yield exactly its own output entry (skipped push / other write into the output: %s)' % ([getattr(x, 'name', x) for x in others][:2],), b.site())
         s = ctx.S.backslice(b, [0])
         restr = sorted({x.item for x in s.call_objs if x.item in RESTRICTING and 'Iterator' in (x.trait or '')})
         ctx.check(s.has_field('v1::Samples', 'entries') and not restr, R + '/map/all-entries', 'T-LOOPMUST', b.name, 'map does not visit every entry %s' % restr, b.site())
@@ -750,11 +770,11 @@ RELIES_ON = {'C04': ['C04.deps', 'C04.use']}
 
 def check(ctx):
     body = ctx.method('C06.anchor/Instance::evaluate_samples', INST, 'evaluate_samples', trait='Evaluate')
-    if body is not None: evaluate_samples_rules(ctx, body)
+    if body is not None: with_renormalised(ctx, body, lambda bd: evaluate_samples_rules(ctx, bd))
     kernel_rules(ctx)
     constraint_rules(ctx)
     get_rules(ctx)
     compress_rules(ctx)
     # floors = decided instances per family on the pinned tree
     ctx.floor('C06.samples', 50); ctx.floor('C06.keys', 4); ctx.floor('C06.sibling', 10); ctx.floor('C06.constraint', 31); ctx.floor('C06.rule', 15)
-    ctx.floor('C06.kernel', 20); ctx.floor('C06.get', 16); ctx.floor('C06.compress', 11); ctx.floor('C06.cover', 22)
+    ctx.floor('C06.kernel', 20); ctx.floor('C06.get', 16); ctx.floor('C06.compress', 12); ctx.floor('C06.cover', 22)
